@@ -128,6 +128,11 @@ def shapes(quick):
     reg('grid-0cols', lambda h, l: h.grid(None, [], []), wf=False)
     reg('grid-0cols-rows', lambda h, l: h.grid(None, [], [[(b'a', h.num(1.0))]]), wf=False)
     reg('grid-row-not-col', lambda h, l: h.grid(None, [(b'a', None)], [[(b'z', h.num(1.0))]]), wf=False)
+    reg('grid-row-extra-tag', lambda h, l: h.grid(None, [(b'a', None)], [[(b'a', h.num(1.0)), (b'b', leaf(h, l))]]), wf=False)
+    reg('grid-row-extra-tag-in-list', lambda h, l: h.list_([h.grid(None, [(b'a', None)], [[(b'a', h.num(1.0)), (b'b', h.marker())]])]), wf=False)
+    reg('grid-row-extra-tag-in-dict', lambda h, l: h.dict_([(b'g', h.grid(None, [(b'a', None)], [[(b'a', h.num(1.0)), (b'b', h.marker())]]))]), wf=False)
+    reg('grid-col-extra', lambda h, l: h.grid(None, [(b'a', None), (b'b', None), (b'c', None)], [[(b'b', h.num(1.0))]]), wf=False)
+    reg('grid-dup-cols', lambda h, l: h.grid(None, [(b'a', None), (b'a', None)], [[(b'a', h.num(1.0))]]), wf=False)
     reg('grid-bad-colname', lambda h, l: h.grid(None, [(tuple(l.text(1)), None)], []), wf=False)
     reg('dict-bad-key', lambda h, l: h.dict_([(b'', h.num(1.0)), ('é'.encode(), h.marker())]), wf=False)
     S.pop(None, None)
